@@ -7,7 +7,7 @@ import z3
 
 from . import api, ops
 from . import ty as T
-from .core import PYOBJ, ContractMisfit, Outcome, PyMerge, State, Unsupported, Val, coerce, fresh, fresh_name, join_types, lift, seq_nth
+from .core import PYOBJ, ContractMisfit, Outcome, PyMerge, SplitGuard, State, Unsupported, Val, coerce, fresh, fresh_name, join_types, lift, seq_nth
 from .exprs import BoundMethod, Closure, bool_val, z_and, z_implies, z_not, z_or
 from .ops import is_const, z3bool
 
@@ -33,6 +33,51 @@ def _store(t):
     t2 = copy.deepcopy(t)
     t2.ctx = ast.Store()
     return t2
+
+
+_split_counter = [0]
+
+
+def split_statement(node, top):
+    """`if a and b: X else: Y`, `a and f(x)`, `r = a or f(x)`, `r = f(x) if c else y`, `return ..`: the same statement with the
+    first guard as an explicit `if` (the rest of the expression is split again when it is executed)."""
+    import copy
+
+    def with_value(val):
+        n2 = copy.copy(node)
+        n2.value = val
+        return n2
+
+    def rest_of(bop):
+        return bop.values[1] if len(bop.values) == 2 else ast.copy_location(ast.BoolOp(op=bop.op, values=bop.values[1:]), bop)
+
+    if isinstance(top, ast.IfExp):
+        if isinstance(node, ast.If):
+            new = ast.If(test=top.test, body=[ast.copy_location(ast.If(test=top.body, body=node.body, orelse=node.orelse), node)],
+                         orelse=[ast.copy_location(ast.If(test=top.orelse, body=node.body, orelse=node.orelse), node)])
+        else:
+            new = ast.If(test=top.test, body=[with_value(top.body)], orelse=[with_value(top.orelse)])
+        return [ast.fix_missing_locations(ast.copy_location(new, node))]
+    is_and = isinstance(top.op, ast.And)
+    a, rest = top.values[0], rest_of(top)
+    if isinstance(node, ast.If):
+        inner = ast.copy_location(ast.If(test=rest, body=node.body, orelse=node.orelse), node)
+        skip = node.orelse or [ast.copy_location(ast.Pass(), node)]
+        new = ast.If(test=a, body=[inner], orelse=skip) if is_and else ast.If(test=a, body=node.body, orelse=[inner])
+        return [ast.fix_missing_locations(ast.copy_location(new, node))]
+    # value statements: the first operand is evaluated ONCE, into a temporary
+    _split_counter[0] += 1
+    tmp = f"_split_tmp{_split_counter[0]}"
+    bind = ast.copy_location(ast.Assign(targets=[ast.Name(id=tmp, ctx=ast.Store())], value=a), node)
+    tload = ast.copy_location(ast.Name(id=tmp, ctx=ast.Load()), node)
+    if is_and:
+        new = ast.If(test=tload, body=[with_value(rest)], orelse=[with_value(tload)])
+    else:
+        new = ast.If(test=tload, body=[with_value(tload)], orelse=[with_value(rest)])
+    out = [bind, ast.copy_location(new, node)]
+    for n in out:
+        ast.fix_missing_locations(n)
+    return out
 
 
 def _safe_eq(x, y):
@@ -324,9 +369,111 @@ class StmtMixin:
             return bool_val(z3.ForAll(vars_, z3bool(z_implies(z_and(guard, *conds), body))))
         return bool_val(z3.Exists(vars_, z3bool(z_and(guard, *conds, body))))
 
+    def multi_comprehension(self, node, st, kind):
+        """A comprehension with several `for` clauses.
+        * the FIRST iterable has a concrete length: unrolled - one inner comprehension per item, joined in order
+          (list: concatenation, set: union, dict: successive update);
+        * otherwise, set comprehensions only: y in result <=> exists <all bound variables>. <all guards and filters> and y == elt."""
+        import copy
+
+        from . import models
+
+        g0 = node.generators[0]
+        src0 = self.eval(g0.iter, st)
+        info0 = self.iter_info(src0, st, node)
+        if info0.kind == "concrete" and kind in ("list", "set", "dict"):
+            inner = copy.copy(node)
+            inner.generators = node.generators[1:]
+            acc = None
+            for it in info0.items:
+                s2 = st.copy()
+                s2.pc = st.pc
+                self.bind_target(g0.target, it, s2, node)
+                conds = [self.cond(c, s2) for c in g0.ifs]
+                c = z_and(*conds)
+                if c is False:
+                    continue
+                if c is not True:
+                    raise Unsupported("symbolic filter on the concrete outer clause of a nested comprehension", node)
+                self.qnames.append(_names_of(g0.target))
+                try:
+                    part = self.comprehension(inner, s2, kind)
+                finally:
+                    self.qnames.pop()
+                if acc is None:
+                    acc = part
+                elif kind == "list":
+                    acc = models.list_extend(self, acc, part, node)
+                elif kind == "set":
+                    acc = ops.binop(ast.BitOr(), acc, part, node) if not (is_const(acc) and is_const(part)) else Val.const(acc.py | part.py)
+                else:
+                    acc, _ = models.mutate(self, st, acc, "update", [part], {}, node)
+            if acc is None:
+                acc = {"list": Val(PYOBJ, None, [], True), "set": Val(PYOBJ, None, set(), True), "dict": Val(PYOBJ, None, {}, True)}[kind]
+            return acc
+        if kind != "set":
+            raise Unsupported(f"{kind} comprehension with several `for` clauses over a symbolic outer iterable", node)
+        sub = st.copy()
+        qvars, guards, pushed = [], [], 0
+        try:
+            for k, g in enumerate(node.generators):
+                src = src0 if k == 0 else self.eval(g.iter, sub)
+                info = info0 if k == 0 else self.iter_info(src, sub, node)
+                meta = getattr(info, "dict_items", None)
+                if meta is None and isinstance(src.ty, T.Dict) and not src.is_py:
+                    meta = (src.ty, lift(src), "keys")
+                if info.kind == "concrete":
+                    raise Unsupported("concrete inner iterable in a symbolic nested comprehension", node)
+                if meta is not None:
+                    dt, dterm, mode = meta
+                    x = fresh(dt.k, "mk")
+                    d = dt.sort()
+                    guard = z3.Select(d.dom(dterm), x)
+                    kv, vv = Val(dt.k, x), Val(dt.v, z3.Select(d.map(dterm), x))
+                    item = {"items": Val(PYOBJ, None, (kv, vv), True), "keys": kv, "values": vv}[mode]
+                    facts = []
+                elif info.kind == "set":
+                    x = fresh(info.elem, "mx")
+                    guard = z3.Select(info.set_term, x)
+                    item, facts = Val(info.elem, x), []
+                else:
+                    x = z3.Int(fresh_name("mi"))
+                    guard = z3.And(x >= 0, x < info.n)
+                    item, facts = info.item(x), info.facts(x)
+                self.bind_target(g.target, item, sub, node)
+                self.qstack.append(([x], guard))
+                self.qouter.append(st)
+                self.qnames.append(_names_of(g.target))
+                pushed += 1
+                qvars.append(x)
+                sub.pc.append(guard)
+                guards.append(guard)
+                for f in facts:
+                    sub.pc.append(f)
+                for c in g.ifs:
+                    cv = self.cond(c, sub)
+                    if cv is True:
+                        continue
+                    cv = z3bool(cv)
+                    sub.pc.append(cv)
+                    guards.append(cv)
+            elt = models._item_val(self.eval(node.elt, sub))
+        finally:
+            for _ in range(pushed):
+                self.qstack.pop()
+                self.qouter.pop()
+                self.qnames.pop()
+        y = fresh(elt.ty, "img")
+        passing = z3.And(*guards)
+        dom = z3.Lambda([y], z3.Exists(qvars, z3.And(passing, lift(elt) == y)))
+        st.assume((dom == z3.K(elt.ty.sort(), z3.BoolVal(False))) == z3.Not(z3.Exists(qvars, passing)))
+        return Val(T.Set(elt.ty), dom)
+
     def comprehension(self, node, st, kind):
         if len(node.generators) != 1:
-            raise Unsupported("nested comprehension", node)
+            if kind == "gen":
+                return Val.obj(("genexp", node, st))
+            return self.multi_comprehension(node, st, kind)
         g = node.generators[0]
         src = self.eval(g.iter, st)
         info = self.iter_info(src, st, node)
@@ -646,9 +793,35 @@ class StmtMixin:
         hint = self.c.hints.get(ast.unparse(node).split("\n")[0]) if self.c else None
         if hint:
             self._hints_seen.add(ast.unparse(node).split("\n")[0])
-        if isinstance(node, (ast.If, ast.For, ast.While, ast.Try, ast.With, ast.FunctionDef)):
-            outs = m(node, st)
-        elif isinstance(node, (ast.Assign, ast.AnnAssign, ast.Return)) and isinstance(node.value, ast.IfExp):
+        top = node.test if isinstance(node, ast.If) else getattr(node, "value", None) if isinstance(node, (ast.Expr, ast.Assign, ast.AnnAssign, ast.Return)) else None
+        if isinstance(top, (ast.BoolOp, ast.IfExp)) and not self.spec_mode and not self.qstack:
+            # a contracted call WITH EFFECTS under the short-circuit guard at the top of this statement's expression
+            # splits the path: the statement is re-executed with the guard as an explicit `if`
+            n_ob, names0, st0 = len(self.obligations), dict(self._names), st.copy()
+            save_ok = getattr(self, "_split_ok", False)
+            self._split_ok = True
+            try:
+                if isinstance(node, ast.If):
+                    outs = m(node, st)
+                else:
+                    outs = self.simple(m, node, st)
+            except (SplitGuard, PyMerge) as e:
+                if isinstance(e, PyMerge) and not (isinstance(top, ast.IfExp) and not isinstance(node, (ast.If, ast.Expr))):
+                    raise
+                del self.obligations[n_ob:]
+                self._names = names0
+                self._split_ok = save_ok
+                outs = self.exec_block(split_statement(node, top), st0)
+            finally:
+                self._split_ok = save_ok
+        elif isinstance(node, (ast.If, ast.For, ast.While, ast.Try, ast.With, ast.FunctionDef)):
+            save_ok = getattr(self, "_split_ok", False)
+            self._split_ok = False
+            try:
+                outs = m(node, st)
+            finally:
+                self._split_ok = save_ok
+        elif False and isinstance(node, (ast.Assign, ast.AnnAssign, ast.Return)) and isinstance(node.value, ast.IfExp):
             # `x = f if c else g` over python-level values cannot be an SMT ite: fall back to the `if` statement
             n_ob, names0, st0 = len(self.obligations), dict(self._names), st.copy()
             try:
@@ -666,7 +839,12 @@ class StmtMixin:
                 ifn = ast.copy_location(ast.If(test=node.value.test, body=[arms[0]], orelse=[arms[1]]), node)
                 outs = self.s_If(ifn, st0)
         else:
-            outs = self.simple(m, node, st)
+            save_ok = getattr(self, "_split_ok", False)
+            self._split_ok = False
+            try:
+                outs = self.simple(m, node, st)
+            finally:
+                self._split_ok = save_ok
         gh = self.c.ghost.get(ast.unparse(node).split("\n")[0]) if self.c and self.c.ghost else None
         if gh:
             self._ghost_seen.add(ast.unparse(node).split("\n")[0])
@@ -731,8 +909,8 @@ class StmtMixin:
         finally:
             self.pending = save
         res = []
-        for cond, exc, n in pend:
-            s2 = pre.copy()
+        for cond, exc, n, snap in pend:
+            s2 = snap  # the state in which the exception is raised (facts and effects up to that point)
             s2.assume(cond)
             res.append((s2, Outcome("raise", exc=exc, line=getattr(n, "lineno", None))))
             for s3, _ in outs:
@@ -921,6 +1099,8 @@ class StmtMixin:
             from . import models
 
             nv = models.list_extend(self, cur, rhs, node)
+            if not nv.is_py and isinstance(nv.ty, T.List):
+                models.bridge_concat(self, st, nv.term, [lift(cur, nv.ty), lift(rhs, nv.ty)])
         else:
             nv = ops.binop(node.op, cur, rhs, node)
         self.assign_target(node.target, nv, st, node, mutate=True)
@@ -1002,8 +1182,8 @@ class StmtMixin:
         finally:
             self.pending = save
         res = []
-        for cond, exc, n in pend:
-            s2 = pre.copy()
+        for cond, exc, n, snap in pend:
+            s2 = snap  # the state in which the exception is raised (facts and effects up to that point)
             s2.assume(cond)
             res.append((s2, Outcome("raise", exc=exc, line=getattr(n, "lineno", None))))
             st.assume(z3.Not(cond))
@@ -1042,6 +1222,36 @@ class StmtMixin:
             name, present_in_then = test.id, True
         elif isinstance(test, ast.UnaryOp) and isinstance(test.op, ast.Not) and isinstance(test.operand, ast.Name):
             name, present_in_then = test.operand.id, False
+        neg = False
+        t_ = test
+        if isinstance(t_, ast.UnaryOp) and isinstance(t_.op, ast.Not):
+            neg, t_ = True, t_.operand
+        if (name is None and isinstance(t_, ast.Call) and isinstance(t_.func, ast.Name) and t_.func.id == "isinstance" and len(t_.args) == 2
+                and isinstance(t_.args[0], ast.Name) and "isinstance" not in s_then.env):
+            # `if isinstance(x, C):` on a Union-typed local: the branch sees x at the matching alternative
+            from . import models
+
+            nm = t_.args[0].id
+            v = s_then.env.get(nm)
+            if v is not None and isinstance(v.ty, T.Union) and not v.is_py:
+                try:
+                    kv = self.eval(t_.args[1], s_then.copy())
+                    hits = []
+                    for i, alt in enumerate(v.ty.alts):
+                        r = models._isinstance(self, s_then, [Val(alt, getattr(v.ty.sort(), f"v{i}")(v.term)), kv], {}, t_)
+                        hits.append(r.py if is_const(r) else None)
+                except (Unsupported, ContractMisfit):
+                    hits = [None]
+                if all(h is not None for h in hits):
+                    yes = [i for i, h in enumerate(hits) if h]
+                    no = [i for i, h in enumerate(hits) if not h]
+                    for idxs, state in ((yes, s_else if neg else s_then), (no, s_then if neg else s_else)):
+                        if len(idxs) == 1:
+                            i = idxs[0]
+                            sv = v.ty.sort()
+                            state.assume(getattr(sv, f"is_alt{i}")(v.term))
+                            state.env[nm] = Val(v.ty.alts[i], getattr(sv, f"v{i}")(v.term))
+            return
         if name is None:
             return
         tgt = s_then if present_in_then else s_else
